@@ -197,4 +197,40 @@ theorem parseFuel_snoc (c : Bytes) (hc : IsCell c) (n : Nat) : ∀ (bs : Bytes) 
           simp only [readValue_append bs c rest y hr, hx]
           simp
 
+/-- Parsing a concatenation of two parsable buffers. -/
+theorem parseFuel_append (n : Nat) : ∀ (bs : Bytes) (cs : List RawCell), parseCellsFuel n bs = some cs →
+    ∀ (m : Nat) (b2 : Bytes) (c2 : List RawCell), parseCellsFuel m b2 = some c2 →
+    parseCellsFuel (n + m) (bs ++ b2) = some (cs ++ c2) := by
+  induction n with
+  | zero => intro bs cs h; simp [parseCellsFuel] at h
+  | succ n ih =>
+    intro bs cs h m b2 c2 h2
+    rw [parseCellsFuel] at h
+    split at h
+    · rename_i he
+      have hbs : bs = [] := by simpa using he
+      subst hbs
+      cases h
+      simp only [List.nil_append]
+      exact parseFuel_le m (n + 1 + m) (by omega) b2 c2 h2
+    · rename_i hne
+      cases hr : readValue bs with
+      | none => simp [hr] at h
+      | some p =>
+        obtain ⟨y, rest⟩ := p
+        simp only [hr] at h
+        cases hp : parseCellsFuel n rest with
+        | none => simp [hp] at h
+        | some cs' =>
+          simp only [hp] at h
+          cases h
+          have hfuel : n + 1 + m = (n + m) + 1 := by omega
+          rw [hfuel, parseCellsFuel]
+          have hne2 : ¬ (bs ++ b2).isEmpty = true := by
+            simp only [List.isEmpty_iff, List.append_eq_nil_iff, not_and]
+            intro hb; simp [hb] at hne
+          rw [if_neg hne2]
+          simp only [readValue_append bs b2 rest y hr, ih rest cs' hp m b2 c2 h2]
+          simp
+
 end ScyllaVerif.Proofs.Row
